@@ -52,6 +52,16 @@ type Argon2IDHasher struct {
 }
 
 func NewArgon2IDHasher(params *Argon2IDParams) (*Argon2IDHasher, error) {
+	// argon2.IDKey() panics on these values - and a missing key in the config file means 0
+	if params.Time < 1 {
+		return nil, fmt.Errorf("invalid argon2id parameter-set: time must be > 0")
+	}
+	if params.Threads < 1 {
+		return nil, fmt.Errorf("invalid argon2id parameter-set: threads must be > 0")
+	}
+	if params.Length < 1 {
+		return nil, fmt.Errorf("invalid argon2id parameter-set: length must be > 0")
+	}
 	return &Argon2IDHasher{Argon2IDParams: *params}, nil
 }
 
